@@ -49,8 +49,10 @@ EvFails(e) ==
            /\ \E r \in 1..n : e.Hnet[r] <= tol
            /\ Near(e.HnetR[1], e.Hnet[1], tol) /\ Near(e.HnetR[nr], e.Hnet[n], tol)
         THEN {} ELSE {"C05.net_curve"})
-  \cup (IF /\ \A r \in 2..n : e.T[r-1] > e.T[r] /\ Near(e.dT[r], e.T[r-1] - e.T[r], 1)
-           /\ \A r \in 2..nr : e.Tr[r-1] > e.Tr[r] /\ Near(e.dTr[r], e.Tr[r-1] - e.Tr[r], 1)
+  (* rows arrive rounded to 1e-4 K: two distinct rows closer than that (a projection next to a latent stream's bound) *)
+  (* may coincide here; strict descent is judged on the unrounded insert events by ProblemTable!CallOK (C08)          *)
+  \cup (IF /\ \A r \in 2..n : e.T[r-1] >= e.T[r] /\ Near(e.dT[r], e.T[r-1] - e.T[r], 1)
+           /\ \A r \in 2..nr : e.Tr[r-1] >= e.Tr[r] /\ Near(e.dTr[r], e.Tr[r-1] - e.Tr[r], 1)
         THEN {} ELSE {"C05.interval_widths"})
   \cup (IF A.pinchAbsent THEN (IF e.hasPinch THEN {"C06.absent_expected"} ELSE {})
         ELSE IF ~e.hasPinch THEN {"C06.pinch_missing"}
